@@ -66,9 +66,11 @@ class Model:
         exits = helpers.load_exits()
         self.renested = helpers.renest_moved_functions(self.modules, exits)
         self.helpers_inlined = helpers.inline_new_helpers(self.modules, exits)
-        for t_ in self.modules.values():
+        star_comps = helpers.load_star_comps()
+        for n_, t_ in self.modules.items():
             helpers.unstar_literals(t_)
-        ifs_table, neg_guards, param_rebinds, loop_ifelse = helpers.load_ifs(), helpers.load_neg_guards(), helpers.load_param_rebinds(), helpers.load_loop_ifelse()
+            helpers.star_comp_to_map(t_, star_comps.get(n_, set()))
+        ifs_table, neg_guards, param_rebinds, loop_ifelse = helpers.load_ifs(), helpers.load_neg_guards(), helpers.load_param_rebinds(), helpers.load_loop_ifelse(); if_tests = helpers.load_if_tests()
         self.hoisted_inlined, self.one_armed_merged = [], 0
         for name in list(self.modules):
             if True:
@@ -79,6 +81,7 @@ class Model:
                 for _ in range(4):
                     if not alpha.unnest_else_after_leave(self.modules[name]):         # else after a branch that always leaves = the rest of the block
                         break
+                helpers.restore_guard_polarity(self.modules[name], if_tests.get(name, set()))        # if c: A(leaves) ; B(leaves)  written the other way round since
                 alpha.normalise_polarity(self.modules[name])                          # no `if not c ... else ...`
                 helpers.swap_negated_final_guard(self.modules[name], neg_guards.get(name, set()))                    # if not c: return A ; return B
                 # locals renamed since the rules were confirmed are renamed back (an alpha-conversion; see sa/alpha.py); explaining variables
